@@ -196,11 +196,18 @@ def run(tier, seed):
             spec = []
             for i, x in enumerate(recs):
                 general = len(x["orbit"]) == t["nsymop"]
-                kind = rng.choice(["Uiso", "Uani", None]) if general else rng.choice(["Uiso", None, "UaniIso"])
+                kind = rng.choice(["Uiso", "Uani", "UaniSpecial", None]) if general else rng.choice(["Uiso", None, "UaniIso"])
                 # mostly ordinary values; now and then the very large ones of disordered solvent (U up to 2.5 A^2, B up to 200)
                 uiso = rng.uniform(0.005, 0.05) if rng.random() < 0.8 else rng.choice([0.0, 0.9, 1.0, 1.2, 2.5])
                 if kind == "Uani":
                     adp = S.random_uani(rng, met, c)
+                elif kind == "UaniSpecial":
+                    # tensors of special form with exact equalities and exact zeros (equal diagonal, diagonal, axial, the hexagonal
+                    # constraint U12 = U11/2): on a general position every one is legal, and in an oblique cell none of them is
+                    # isotropic - a fast path that takes [u,u,u,0,0,0] for a sphere is wrong wherever a reciprocal angle is not 90
+                    u_, w_, x_ = rng.choice([0.01, 0.02, 0.035]), rng.choice([0.015, 0.04]), rng.choice([0.006, 0.025])
+                    kind, adp = "Uani", rng.choice([[u_, u_, u_, 0.0, 0.0, 0.0], [u_, u_, u_, 0, 0, 0], [u_, w_, x_, 0.0, 0.0, 0.0],
+                                                    [u_, u_, w_, 0.0, 0.0, 0.0], [u_, u_, w_, 0.0, 0.0, u_ / 2]])
                 elif kind == "UaniIso":
                     kind, adp = "Uani", S.iso_uani(uiso, met)
                 elif kind == "Uiso":
